@@ -5,7 +5,7 @@
    with replace-on-equal-key on both sides). *)
 From Coq Require Import QArith String.
 From GV Require Import Base.Bytes Vedirect.Frame Vedirect.Port Vedirect.Driver Tables.ObsTypes.
-From GV Require Import Vedirect.DrvSem Gen.DrvImpl Vedirect.DrvRefine Api.Api Api.ApiSem Gen.ApiImpl Api.ApiRefine.
+From GV Require Import Vedirect.DrvSem Gen.DrvImpl Vedirect.DrvRefine Api.Api Api.ApiSem Gen.ApiImpl Api.ApiRefine Api.ApiRefineTables.
 From GV Require Api.Maps.
 Import ListNotations.
 Local Open Scope Z_scope.
@@ -115,3 +115,9 @@ Proof.
   - cbn [fst] in R. subst og. discriminate H.
   - cbn [fst] in R. subst og. discriminate H.
 Qed.
+
+(* ... on the register list of every product id (the hypothesis is closed over the regenerated tables) *)
+Theorem go_read_product_lists c id cn v :
+  readlist_rel (go_ReadRegisterList c tt (snd (obs_reglist id)) (mkA (mkD v false) [] cn))
+               (Maps.read_register_list c (snd (obs_reglist id)) cn v).
+Proof. apply go_ReadRegisterList_refines, product_lists_ok. Qed.
